@@ -40,6 +40,7 @@ class Result(object):
     self.repo_root = repo_root
     self.obligations = []
     self.floors = {}
+    self.errors = []      # rule groups that could not be decided
     self.functions = set()
     self.notes = []
     self.assumptions = []
@@ -108,9 +109,12 @@ class Result(object):
       # a rule that already reports a violation is not vacuous; merged or
       # aggregated violations may legitimately lower its instance count
       if t['instances'] < t['floor'] and not t['violations']:
-        raise AnalysisError(
-            'rule %s matched %d instances, fewer than the hand-confirmed '
-            'floor %d (vacuity guard)' % (r, t['instances'], t['floor']))
+        msg = ('rule %s matched %d instances, fewer than the hand-confirmed '
+               'floor %d (vacuity guard)' % (r, t['instances'], t['floor']))
+        if self.errors:
+          # the group that feeds this rule did not finish: already reported
+          continue
+        self.errors.append(msg)
     known = load_known()
     viols = [o for o in self.obligations if o.status == 'violation']
     unlisted = []
@@ -152,7 +156,11 @@ class Result(object):
                    'repo': self.repo_root}, f, indent=1)
       print('%s  rule=%s  instance=%s  %s' % (o.loc, o.rule, o.key, o.detail))
       print('VIOLATION property=%s replay=%s' % (self.pid, path))
-    if write_evidence:
+    for e in self.errors:
+      print('ANALYSIS-ERROR %s' % e)
+    if self.errors and not unlisted:
+      return 2
+    if write_evidence and not self.errors:
       self.write_evidence(tab, viols, n_known, unlisted)
     return 1 if unlisted else 0
 
